@@ -188,7 +188,8 @@ Definition mentions (o : obs) : list N :=
   match o with
   | ODeliver _ _ cur sc par nav =>
       (match cur with Some x => [x] | None => [] end) ++ sc ++ (match par with Some x => [x] | None => [] end) ++
-      flat_map (fun e => (match fst e with Some x => [x] | None => [] end) ++ snd e) nav
+      flat_map (fun e => (match fst e with Some x => [x] | None => [] end) ++ snd e) (nv_each nav) ++
+      nv_chain nav ++ nv_pscope nav ++ nv_root nav
   | _ => []
   end.
 Definition leaf_of (o : obs) : option N := match o with ODeliver n _ _ _ _ _ => Some n | _ => None end.
@@ -200,4 +201,62 @@ Fixpoint run_lookup (c : coll) (mx : N) (pool : list meta) (st : state) (past : 
   | o :: r =>
       let '(st1, out, _) := step c mx pool st o in
       sees_only_own past out /\ run_lookup c mx pool st1 (past ++ news_of out) r
+  end.
+
+(** * Exactly what a leaf sees: the specification side, without FilterIds or bitmaps.
+    Walk the *real* span tree / span stack and keep the spans for which [acc] holds ("this leaf was notified of it
+    and it is still in the registry"). *)
+Fixpoint anc (fuel : nat) (st : state) (x : option N) : list N :=       (* the span, its parent, ... up to the root *)
+  match fuel with
+  | O => []
+  | S k => match x with
+           | None => []
+           | Some id => match sp_get st id with None => [] | Some d => id :: anc k st (sd_parent d) end
+           end
+  end.
+Definition above (st : state) (id : N) : list N :=                       (* the real ancestors strictly above a span *)
+  match sp_get st id with Some d => anc (fuel_of st) st (sd_parent d) | None => [] end.
+Definition current_by (acc : N -> bool) (st : state) : option N :=
+  match current st with None => None | Some _ => find acc (stack_iter st) end.
+Definition scope_by (acc : N -> bool) (st : state) (x : option N) : list N := filter acc (anc (fuel_of st) st x).
+Definition parent_by (acc : N -> bool) (st : state) (r : option N) : option N :=
+  match r with Some id => hd_error (filter acc (above st id)) | None => None end.
+Fixpoint chain_by (fuel : nat) (acc : N -> bool) (st : state) (id : N) : list N :=
+  match fuel with
+  | O => []
+  | S k => match parent_by acc st (Some id) with Some p => p :: chain_by k acc st p | None => [] end
+  end.
+Definition ref_by (acc : N -> bool) (st : state) (w : what) : option N :=
+  match w with
+  | WEvent _ => current_by acc st
+  | WNew id | WEnter id | WExit id | WClose id | WRecord id => if acc id then Some id else None
+  end.
+Definition record_by (acc : N -> bool) (name : N) (st : state) (w : what) : obs :=
+  let r := ref_by acc st w in
+  let sc := scope_by acc st r in
+  ODeliver name w (current_by acc st) sc (parent_by acc st r)
+           (Navs (map (fun id => (parent_by acc st (Some id), scope_by acc st (Some id))) sc)
+                 (match r with Some x => chain_by (fuel_of st) acc st x | None => [] end)
+                 (match r with
+                  | Some x => match parent_by acc st (Some x) with Some p => scope_by acc st (Some p) | None => [] end
+                  | None => []
+                  end)
+                 (rev sc)).
+Definition memb (n id : N) (l : list (N * N)) : bool := existsb (fun e => (fst e =? n) && (snd e =? id)) l.
+Definition alive_b (st : state) (id : N) : bool := match sp_get st id with Some _ => true | None => false end.
+
+(** every notification of an operation shows its leaf exactly the spans that leaf was notified of (and that are still
+    in the registry), in order: [stc] is the registry at the time of the callback — for everything but [on_close]
+    it has the span pool and the span stack of the state after the operation ([on_close] runs in the middle of the
+    close cascade) *)
+Definition sees_exactly (past : list (N * N)) (st' : state) (out : list obs) : Prop :=
+  forall o n, In o out -> leaf_of o = Some n ->
+    exists stc w, st_stack stc = st_stack st' /\ (st_spans stc = st_spans st' \/ exists id, w = WClose id) /\
+      o = record_by (fun id => alive_b stc id && memb n id (past ++ news_of out)) n stc w.
+Fixpoint run_exact (c : coll) (mx : N) (pool : list meta) (st : state) (past : list (N * N)) (h : list op) : Prop :=
+  match h with
+  | [] => True
+  | o :: r =>
+      let '(st1, out, _) := step c mx pool st o in
+      sees_exactly past st1 out /\ run_exact c mx pool st1 (past ++ news_of out) r
   end.
